@@ -86,8 +86,16 @@ type c16Cfg struct {
 	restart   bool     // alphabet additionally contains "the descheduler restarts" (fresh arbitrator, initial sync re-delivers all jobs)
 	dup       []string // pods for which a user may create a second job while one is live (no webhook / CRD rule forbids it)
 	adopted   []string // jobs that are already Running when the arbitrator starts (delivered as Create events by the initial sync)
+	repl      map[string]int // expected replicas of a workload when they differ from c16Replicas (only the universe's pods exist; the others are taken as running elsewhere)
 	depthQ    int
 	depthT    int
+}
+
+func (c *c16Cfg) replicas(w string) int {
+	if r, ok := c.repl[w]; ok {
+		return r
+	}
+	return c16Replicas[w]
 }
 
 func (c *c16Cfg) caps() string {
@@ -178,11 +186,11 @@ func (f *c16Finder) GetPodsForRef(ref *metav1.OwnerReference, ns string, _ *meta
 			out = append(out, f.s.podObj[ps.name])
 		}
 	}
-	return out, int32(c16Replicas[ref.Name]), nil
+	return out, int32(f.s.cfg.replicas(ref.Name)), nil
 }
 func (f *c16Finder) GetExpectedScaleForPod(pod *corev1.Pod) (int32, error) {
 	ref := metav1.GetControllerOf(pod)
-	return int32(c16Replicas[ref.Name]), nil
+	return int32(f.s.cfg.replicas(ref.Name)), nil
 }
 func (f *c16Finder) ListPodsByWorkloads(uids []types.UID, ns string, _ *metav1.LabelSelector, _ bool) ([]*corev1.Pod, error) {
 	return nil, nil
@@ -754,10 +762,22 @@ func c16Count(o c16Obs, except string) c16Counts {
 	return c
 }
 
-// scaled value of an int-or-percent setting: percent of the expected replicas rounded down, at least 1, at most replicas
+// scaled value of an int-or-percent setting: percent of the expected replicas rounded down, at least 1, at most replicas.
+// An unset setting stands for the controller's built-in allowance: 10% of the expected replicas (rounded down like every
+// percentage) for more than 10 replicas, 2 for 4..10 replicas, 1 below (seed C16-G rounded the 10% up).
 func c16Scaled(v *intstr.IntOrString, replicas int) (int, bool) {
 	if v == nil {
-		return 0, false
+		n := 1
+		switch {
+		case replicas > 10:
+			n = replicas * 10 / 100
+		case replicas >= 4:
+			n = 2
+		}
+		if n > replicas {
+			n = replicas
+		}
+		return n, true
 	}
 	n := 0
 	if v.Type == intstr.Int {
@@ -843,10 +863,10 @@ func (s *c16Sys) lacksHeadroom(o c16Obs, p c16PodObs, except string) []string {
 	if cap, ok := c16I32(s.cfg.global); ok && c.global+1 > cap {
 		out = append(out, "global")
 	}
-	if cap, ok := c16Scaled(s.cfg.perWl, c16Replicas[p.wl]); ok && c.wl[p.wl]+1 > cap {
+	if cap, ok := c16Scaled(s.cfg.perWl, s.cfg.replicas(p.wl)); ok && c.wl[p.wl]+1 > cap {
 		out = append(out, "workload")
 	}
-	if cap, ok := c16Scaled(s.cfg.maxUnav, c16Replicas[p.wl]); ok {
+	if cap, ok := c16Scaled(s.cfg.maxUnav, s.cfg.replicas(p.wl)); ok {
 		n := len(c.unav[p.wl])
 		if !c.unav[p.wl][p.name] {
 			n++
@@ -871,7 +891,7 @@ func (s *c16Sys) otherReason(o c16Obs, p c16PodObs, self string) bool {
 			return true // "a pod that already has a live migration job never gets a second one"
 		}
 	}
-	r := c16Replicas[p.wl]
+	r := s.cfg.replicas(p.wl)
 	if r == 1 {
 		return true
 	}
@@ -927,10 +947,10 @@ func (s *c16Sys) judgeRound(before, after c16Obs) (viol []mc.Violation) {
 		chk("global", "*", cb.global, ca.global, cap)
 	}
 	for _, w := range []string{"w1", "w2"} {
-		if cap, ok := c16Scaled(s.cfg.perWl, c16Replicas[w]); ok {
+		if cap, ok := c16Scaled(s.cfg.perWl, s.cfg.replicas(w)); ok {
 			chk("workload", w, cb.wl[w], ca.wl[w], cap)
 		}
-		if cap, ok := c16Scaled(s.cfg.maxUnav, c16Replicas[w]); ok {
+		if cap, ok := c16Scaled(s.cfg.maxUnav, s.cfg.replicas(w)); ok {
 			chk("unavailable", w, len(cb.unav[w]), len(ca.unav[w]), cap)
 		}
 	}
@@ -1166,6 +1186,9 @@ func c16Configs(env *mc.Env) []*c16Cfg {
 		// sync): the only way a count cap can be "already exceeded before the round"
 		// a user creates a second job for a pod that already has a live one (admitted by the API: no webhook, no CRD rule)
 		{name: "dup-node1", elig: []string{"a1", "a3"}, dup: []string{"a1"}, perNode: i(1), perWl: c16IS("70%"), maxUnav: c16IS("70%"), depthQ: 7, depthT: 10},
+		// budgets unset: the built-in allowance applies; 15 expected replicas of w1 (of which a1 a2 a3 are in the universe)
+		// allow floor(10%) = 1 migrating / unavailable pod
+		{name: "wl-budgets-unset-15replicas", elig: []string{"a1", "a2", "a3", "b1"}, repl: map[string]int{"w1": 15}, perNode: i(2), depthQ: 6, depthT: 9},
 		{name: "adopted-running-node1", elig: all, adopted: []string{"a1", "a3"}, perNode: i(1), global: i(3), perWl: c16IS("70%"), maxUnav: c16IS("70%"), depthQ: 6, depthT: 9},
 	}
 	if env.Thorough() {
